@@ -95,9 +95,15 @@ Section Always.
       cbn [series_of] in Hl. eapply subset_nonempty; [exact Hl|]. destruct keep_name; auto. apply map_nonempty; auto.
     - destruct R as [| |R0| |]; try discriminate. apply Some_true_inj in Hl. exists R0. split; auto.
       eapply seteq_nonempty; [exact Hl | discriminate].
-    - destruct args; [|discriminate]. inversion Hc; subst.
-      destruct R as [| |R0| |]; try discriminate. apply Some_true_inj in Hl. exists R0. split; auto.
-      eapply seteq_nonempty; [exact Hl | discriminate].
+    - destruct args as [|a [|a2 ar]]; [| |discriminate].
+      + inversion Hc; subst.
+        destruct R as [| |R0| |]; try discriminate. apply Some_true_inj in Hl. exists R0. split; auto.
+        eapply seteq_nonempty; [exact Hl | discriminate].
+      + apply Forall2_1 in Hc. destruct Hc as [c [-> HSa]].
+        destruct (IH a (or_introl eq_refl) Ha _ HSa) as [C0 [-> Hne]].
+        destruct R as [| |R0| |]; try discriminate. apply Some_true_inj in Hl. exists R0. split; auto.
+        unfold map_rule in Hl. apply andb_true_iff in Hl. destruct Hl as [_ Hl].
+        eapply subset_nonempty; [exact Hl | apply map_nonempty; auto].
   Qed.
 
   Lemma A_bin op rb vm a b : A a -> A b -> A (EBin op rb vm a b).
